@@ -353,8 +353,8 @@ func c07bases(m *mon.M, kinds []*c07kind) []c07base {
 			}
 		}
 		if k.stream != nil {
-			add(k, top, 10, 7)    // squeezing, mid-rate
-			add(k, top, 0, k.bs)  // squeezing, n == rate
+			add(k, top, 10, 7)   // squeezing, mid-rate
+			add(k, top, 0, k.bs) // squeezing, n == rate
 		}
 	}
 	return bases
@@ -376,6 +376,14 @@ var c07probes = []struct {
 	}},
 	{"Reset Sum Write(200) Sum Size", func(h hash.Hash, bs int) { h.Reset(); h.Sum(nil); h.Write(make([]byte, 200)); h.Sum(nil); h.Size() }},
 	{"Write(bs-1) Write(2) Sum", func(h hash.Hash, bs int) { h.Write(make([]byte, bs-1)); h.Write(make([]byte, 2)); h.Sum(nil) }},
+}
+
+// quietPanics is mon.Panics without the stack capture (the hot path sees
+// hundreds of thousands of documented panics).
+func quietPanics(fn func()) (pv any) {
+	defer func() { pv = recover() }()
+	fn()
+	return nil
 }
 
 // c07try hands one byte string to UnmarshalBinary and, if accepted, runs the
@@ -402,7 +410,7 @@ func c07try(m *mon.M, k *c07kind, size int, b []byte, origin string) {
 			m.Violation("unmarshal-not-deterministic:"+k.name, map[string]any{"origin": origin, "state": mon.FullHex(b)})
 			return
 		}
-		pv, stack = mon.Panics(func() { p.run(h, k.bs) })
+		pv = quietPanics(func() { p.run(h, k.bs) })
 		m.Count("probes_run", 1)
 		if pv == nil {
 			continue
@@ -414,6 +422,10 @@ func c07try(m *mon.M, k *c07kind, size int, b []byte, origin string) {
 			m.Count("documented_after_read_panics", 1)
 			continue
 		}
+		// re-run the same probe on a fresh restore to capture the stack
+		h2 := k.fresh(size)
+		h2.(marshaler).UnmarshalBinary(b)
+		_, stack = mon.Panics(func() { p.run(h2, k.bs) })
 		key := "panic-after-unmarshal:" + k.name + ":" + mon.PanicSite(stack)
 		detail := map[string]any{"kind": k.name, "origin": origin, "state": mon.FullHex(b), "probe": p.name, "panic": msg, "site": mon.PanicSite(stack)}
 		if k.blake && len(b) > k.bs+2 {
